@@ -7,6 +7,9 @@ def family(pid):
     if pid == 'C20':
         from p_c20 import C20
         return C20()
+    import p_pred
+    if hasattr(p_pred, pid):
+        return getattr(p_pred, pid)()
     import p_mode
     if hasattr(p_mode, pid):
         return getattr(p_mode, pid)()
